@@ -188,7 +188,7 @@ class Interp:
                 elif src == "sklearn.base":
                     g[name] = ClassInfo(a.name, "sklearn.base", None, [])
                 elif src == "sklearn.utils.multiclass" and a.name == "unique_labels":
-                    g[name] = Opaque("unique_labels")
+                    g[name] = unique_labels_model
                 elif src == "dask_ml.cluster.k_means" and a.name == "k_init":
                     g[name] = k_init_model
                 elif src == "typing":
@@ -417,6 +417,9 @@ class Interp:
 
     def b_set(self, xs=()):
         if isinstance(xs, (Arr, SList)):
+            c = constant_element(xs)
+            if c is not None:
+                return {c}              # every element is the same concrete value
             return LabelSet(xs)
         return set(xs)
 
@@ -1093,6 +1096,12 @@ class Interp:
             return SList(it.slen(), lambda i: it[i])
         if isinstance(it, LabelSet):
             return it.as_slist()
+        if isinstance(it, A.IndexSet):
+            k = T.fresh("c")
+            m_ = it.maskfn(k)
+            if isinstance(m_, Poly) and m_ == ONE:
+                return SRange(0, it.full)         # every position selected
+            raise Unsupported("iteration over a proper index selection")
         if hasattr(it, "as_slist"):
             return it.as_slist()
         if isinstance(it, Obj) and it.cls.find("methods", "__iter__", self.classes) is None:
@@ -1380,6 +1389,33 @@ class Interp:
     def ex_While(self, s, env):
         from .loops import exec_while
         exec_while(self, s, env)
+
+
+def constant_element(xs):
+    """the common concrete integer value of a symbolic sequence whose elements do not depend on the index, else None"""
+    try:
+        i = T.fresh("c")
+        e = xs.elem(i) if isinstance(xs, SList) else xs.fn(i)
+    except Exception:
+        return None
+    if isinstance(xs, Arr) and xs.ndim != 1:
+        return None
+    if isinstance(e, (int,)) and not isinstance(e, bool):
+        return e
+    if isinstance(e, Poly) and e.is_const() and e.as_int() is not None:
+        return e.as_int()
+    return None
+
+
+def unique_labels_model(y):
+    """sklearn unique_labels: the sorted distinct labels (trusted)"""
+    N.used("sklearn.unique_labels")
+    if isinstance(y, (Arr, SList)):
+        c = constant_element(y)
+        if c is not None:
+            return [c]
+        raise Unsupported("unique_labels of symbolic labels")
+    return sorted(set(int(v) if not isinstance(v, Poly) else v.as_int() for v in y))
 
 
 def k_init_model(X, n_clusters, init="k-means||", random_state=None, max_iter=None, oversampling_factor=2, **kw):
